@@ -97,7 +97,7 @@ func (d *fdrv) freshKeyJSON() string {
 
 func initParams(spawn time.Time) *providertypes.ConsumerInitializationParameters {
 	return &providertypes.ConsumerInitializationParameters{
-		InitialHeight:                     clienttypes.NewHeight(0, 5),
+		InitialHeight:                     clienttypes.NewHeight(1, 5),
 		GenesisHash:                       []byte("gen_hash"),
 		BinaryHash:                        []byte("bin_hash"),
 		SpawnTime:                         spawn,
@@ -136,7 +136,7 @@ func (d *fdrv) phase(c int64) providertypes.ConsumerPhase {
 }
 
 func (d *fdrv) create(c int64, s *consumerSpec) common.Result {
-	msg := &providertypes.MsgCreateConsumer{Submitter: ownerAddr(c), ChainId: fmt.Sprintf("chain%d", c),
+	msg := &providertypes.MsgCreateConsumer{Submitter: ownerAddr(c), ChainId: fmt.Sprintf("chain%d-1", c),
 		Metadata: providertypes.ConsumerMetadata{Name: fmt.Sprintf("name%d", c), Description: "d", Metadata: "m"}}
 	if s != nil {
 		ps := &providertypes.PowerShapingParameters{AllowInactiveVals: true,
@@ -508,7 +508,7 @@ func (d *fdrv) apply() int64 {
 			msg.AllowlistedRewardDenoms = &providertypes.AllowlistedRewardDenoms{Denoms: dn}
 		}
 		if num(op[10]) != 0 {
-			msg.NewChainId = fmt.Sprintf("newchain%d", c1)
+			msg.NewChainId = fmt.Sprintf("newchain%d-1", c1)
 		}
 		return code(env.Deliver(msg))
 	case 2:
